@@ -2,7 +2,7 @@
 import math
 from fractions import Fraction
 from . import tlc
-from .common import EXACT_EMBS, DEC_EMBS, unfl, run_driver_parallel
+from .common import EXACT_EMBS, DEC_EMBS, EXTREME_EMBS, unfl, run_driver_parallel
 from .fix import fix
 
 FNMAP = {"bott": "bottleneck", "wass": "wasserstein", "heat": "heat", "sw": "sliced"}
@@ -189,6 +189,6 @@ def run_sessions(ctx, specs, label, owner_clause=lambda cl: True, nproc=12):
 
 def replay(ctx, rec):
     c = rec["case"]
-    e = next(x for x in EXACT_EMBS + DEC_EMBS if x.name == c["emb"])
+    e = next(x for x in EXACT_EMBS + DEC_EMBS + EXTREME_EMBS if x.name == c["emb"])
     run_sessions(ctx, [dict(session=c["session"], fn=c["fn"], emb=e, sigma_t=c.get("sigma_t"), M=c.get("M"), anchor=c.get("anchor", 0), aux=c.get("aux", []),
                             zerotol=Fraction(c["zerotol"]), container=c.get("container"), edit=c.get("edit", 0))], "replay", nproc=1)
